@@ -61,3 +61,28 @@ def C08_real_multiplier(fcase, params):
         return False
     return _passes_without_multiply(c)
 
+
+
+def C08_tr_zero_rotation(fcase, params):
+    """F-C08-tr-zero-rotation: a TR input whose rotation entries are all zeros or jumps, written with shortcuts"""
+    import spec
+    c = fcase.get("case") or {}
+    if fcase.get("stream") != "direct" or c.get("card") != "tr" or fcase.get("kind") != "wrong-count":
+        return False
+    try:
+        want = spec.expand_shortcuts(spec.tokens(" ".join(t["t"] for t in c["toks"])))
+    except Exception:
+        return False
+    cur = list(want)
+    for i, v in c.get("edits", []):
+        if i < len(cur):
+            cur[i] = Fraction(v)
+    if len(cur) != 12 or not all(x == "J" or x == 0 for x in cur[3:12]):
+        return False
+    # with one rotation entry that is not zero the same card is written in full
+    import props.C08 as C08
+    c2 = dict(c, edits=list(c.get("edits", [])) + [[11, 1.0]])
+    try:
+        return C08.run_direct_case(c2) is None
+    except Exception:
+        return False
